@@ -397,6 +397,10 @@ fn run(args: &Args, shapes: &[&'static vhc::ShapeInfo]) {
         shapes,
         small,
         thorough,
+        // experimental and off in every registered check: lowering RLIMIT_AS inside a shard makes thread creation fail as
+        // intended, but the unwinder itself then sometimes aborts ("failed to initiate panic, error 5"), which would be a
+        // false alarm on the unchanged tree (DESIGN.md 8.5, C07-c)
+        spawn_faults: args.flags.contains("spawn-fail") && !small && !cfg!(miri),
     };
     let total = {
         let t = g.count(prop);
@@ -404,6 +408,9 @@ fn run(args: &Args, shapes: &[&'static vhc::ShapeInfo]) {
         t.min(cap)
     };
     exec::install_panic_hook();
+    if g.spawn_faults {
+        exec::prepare_heap_for_spawn_faults();
+    }
     if !hooks_off {
         install_library_hook();
     }
@@ -560,6 +567,12 @@ fn run(args: &Args, shapes: &[&'static vhc::ShapeInfo]) {
             chunks.dedup();
             if chunks.len() >= 2 && e.runs.len() == 1 {
                 bump(&mut st.extra, "runs_with_mixed_worker_chunk_sizes", 1);
+            }
+        }
+        if e.case.spawn_fail && e.spawn_fault_engaged {
+            bump(&mut st.extra, "runs_under_thread_creation_failure", 1);
+            if e.obs.is_err() {
+                bump(&mut st.extra, "of_which_panicked", 1);
             }
         }
         let sig = e.signature();
